@@ -296,8 +296,8 @@ TRI 1
 4 TC 4 RC c1 4 0.0 36.0
 [ bonds ]
 a1 b1 1 0.3 100
-2 3 1 0.3 100
 2 4 1 0.3 100
+2 3 1 0.3 100
 """
 MACRO_ITP = """[ moleculetype ]
 TRI 1
@@ -308,8 +308,8 @@ TRI 1
 4 TC 4 RC c1 4 0.0 36.0
 [ bonds ]
 1 2 1 0.3 100
-2 3 1 0.3 100
 2 4 1 0.3 100
+2 3 1 0.3 100
 """
 
 
